@@ -345,7 +345,8 @@ static void wexp_explore(const wexp_cfg *cf, int w, int W, uint64_t start, const
                     vf_count(CT_W_SEQS, 1);
                     size_t size = wexp_ref_size(seq, m);
                     wexp_mm mm;
-                    for (size_t cap = 0; cap <= size + 1; cap++) {
+                    /* every capacity up to size+1, and at least 0..3 (reset refuses capacities below 2) */
+                    for (size_t cap = 0; cap <= (size + 1 > 3 ? size + 1 : 3); cap++) {
                         vf_count(CT_W_RUNS, 1);
                         vf_count(CT_W_STATES, (uint64_t) m + 1);
                         if (!wexp_run(cf, seq, m, cap, &mm, true)) {
